@@ -176,6 +176,22 @@ def adjoint_identity_subs(o, k):
     return False
 
 
+def adjoint_diagonal_rename(o, k):
+    """a leaf with one input renamed onto ANOTHER of its own inputs (a diagonal, x(i=k) with k an input of x) in an
+    expression built under reflect: the 'injective renaming' shortcut of the Scatter rule returns the incoming adjoint
+    unchanged instead of the indicator [i == k]"""
+    p = _prog_of(o)
+    if p is None or "opt=reflect" not in o.get("label", ""):
+        return False
+    for n in _nodes(p):
+        if n[0] == "subs" and n[1][0] == "leaf":
+            own = dict(n[1][2])
+            for key, val in n[2]:
+                if val[0] == "var" and val[1] != key and val[1] in own:
+                    return True
+    return False
+
+
 def approximate_bound_leak(o, k):
     """a lazily built Approximate term exposes the alpha-renamed name of its approx_vars"""
     return str(o.get("label", "")).startswith("binder|approximate|")
